@@ -289,6 +289,8 @@ class Generator:
         elif how == "flat":
             st = {"op": "new_flat", "dst": v, "flat": [x for r in rows for x in r], "lengths": lengths,
                   "dtype": dtype}
+            if rng.random() < 0.12:
+                st["via"] = "frombuffer"
         else:
             st = {"op": "new_np", "dst": v, "matrix": [x for r in rows for x in r],
                   "shape": [len(lengths), lengths[0]], "dtype": dtype}
@@ -841,6 +843,36 @@ class Generator:
         self.emit({"op": "assign", "tgt": t, "ix": ix, "value": value}, f"assign[{cls}]={k}")
 
     # -- driver --------------------------------------------------------------------------------
+    def g_alias_scenario(self):
+        """u = a[...]; s = (a or u)[selection]; write through the OTHER of a / u; the selection stays unread until
+        later.  (Only where writes are placed freely.)"""
+        rng = self.rng
+        if self.hazard_free or len(self.ex.env) + 2 > self.max_vars:
+            return
+        vs = self.vars()
+        if not vs:
+            return
+        a = rng.choice(vs) if rng.random() < 0.5 else vs[0]
+        u = self.fresh()
+        self.emit({"op": "getitem", "src": a, "ix": [rng.choice(["ell", "unit"])], "dst": u}, "alias@0")
+        if u not in self.ex.env:
+            return
+        self.depth[u] = self.depth.get(a, 0)
+        through, other = (a, u) if rng.random() < 0.5 else (u, a)
+        n, lens, dt = self.info(through)
+        rs, rcls = gen_rowsel(rng, n, self.P)
+        sel = self.fresh()
+        self.emit({"op": "getitem", "src": through, "ix": rs, "dst": sel}, f"sel[{rcls}]@alias")
+        if sel not in self.ex.env:
+            return
+        self.depth[sel] = 1
+        if rng.random() < 0.5:
+            self.emit({"op": "fill", "tgt": other, "value": ["py", _val(rng, dt)] if dt.kind != "f"
+                       else ["pyf", _val(rng, dt)]}, "fill")
+        elif n:
+            self.emit({"op": "assign", "tgt": other, "ix": ["int", rng.randint(-n, n - 1)],
+                       "value": ["py", _val(rng, dt)] if dt.kind != "f" else ["pyf", _val(rng, dt)]}, "assign[int]=py")
+
     def g_chain(self):
         """A selection chain: selections of selections, each applied to the previous (still unread)
         result - the compounding that C06 is about - optionally followed by a burst of reads that do
@@ -881,6 +913,9 @@ class Generator:
             guard += 1
             if rng.random() < self.P["chain_rate"] and self.room():
                 self.g_chain()
+                continue
+            if not self.hazard_free and rng.random() < 0.06:
+                self.g_alias_scenario()
                 continue
             k = rng.choices(kinds, ws)[0]
             getattr(self, "g_" + k)()
